@@ -251,7 +251,7 @@ func init() {
 	core.Register(&core.Check{
 		Prop: "C17", Level: "exploration",
 		Rule: "case = one random sequence of 50-500 Set/Delete/Get/LowerBound/Scan/All calls on a fresh skiplist (maxLevel 1..16, p 0.01..0.99, hostile/binary/long user keys x versions 0..9 plus extreme versions); every result is compared with a sorted-slice model; non-trivial = at least one overwrite of an existing versioned key and one successful Delete and >1 entry left; distinct by hash of the operation sequence",
-		Gen: genC17, Run: runC17, BatchSize: 500, GoMaxProcs: 1, Parallel: 16,
+		Gen:  genC17, Run: runC17, BatchSize: 500, GoMaxProcs: 1, Parallel: 16,
 		MinNonTrivial: map[string]int{"quick": 500, "thorough": 20000},
 		Assumptions:   []string{"versioned keys only (user@ts), as the engine uses the skiplist", "single goroutine: the memtable serialises access with its own lock"},
 	})
